@@ -12,7 +12,7 @@ import depend   # noqa: E402
 
 ID = 'C05'
 TITLE = 'Incremental recalculation equals recalculation from scratch'
-PROPS = ['Props/C05']
+PROPS = ['Props/C05', 'Props/C05code']
 RULE = ('random documents (1-3 tables, summary tables, Ref/RefList columns) and user-action histories from the shared '
         'generator and from a C05 generator that over-represents lookups (CONTAINS, order_by, multi-key), reference '
         'chains across tables, $group formulas, PREVIOUS/NEXT/RANK, and schema edits of dependencies; after EVERY bundle '
@@ -51,6 +51,33 @@ LEVEL_NOTE = ('Strength: kernel. Trusted: Coq kernel; hand-written model tied by
               'a lookup. Repaired (eb8849a, witness replayed first each run): RecordSet.<RefList column> recorded a '
               'dependency with the wrong relation.')
 PROOF_TIMEOUT = 900
+
+
+def regenerate(ctx):
+  """coq/gen/Deps_gen.v (and K4_gen.v for ReferenceRelation) from /repo's current source; pinned glue compared by AST."""
+  import json
+  import os
+  from harness import py2v, dep2v_main, dep2v_gen, k4tr_specs
+  try:
+    core.write_if_changed(os.path.join(core.COQ, 'gen', 'K4_gen.v'), k4tr_specs.generate(core.GRIST))
+  except py2v.Untranslatable as ex:
+    raise core.TieBroken('ReferenceRelation is outside the translated subset (harness/k4tr.py): %s' % ex)
+  try:
+    text = dep2v_main.generate(core.GRIST)
+  except py2v.Untranslatable as ex:
+    raise core.TieBroken('dependency code outside the translated subset (harness/dep2v*.py): %s' % ex)
+  core.write_if_changed(os.path.join(core.COQ, 'gen', 'Deps_gen.v'), text.replace(core.GRIST, '<repo>/sandbox/grist'))
+  try:
+    now = dep2v_gen.pin_hashes(core.GRIST)
+  except py2v.Untranslatable as ex:
+    raise core.TieBroken('pinned glue: %s' % ex)
+  with open(os.path.join(core.VERIF, 'harness', 'dep2v_pins.json')) as f:
+    want = json.load(f)
+  bad = sorted(k for k in want if now.get(k) != want[k])
+  ctx.extra['regenerated'] = {'generated_file': 'coq/gen/Deps_gen.v (+ K4_gen.v)', 'translated_functions': text.count('Definition gen_') + text.count('Fixpoint gen_'),
+                              'pinned_functions': len(want)}
+  if bad:
+    raise core.TieBroken('glue the model was written from changed (AST differs from harness/dep2v_pins.json): %s' % ', '.join(bad))
 
 
 def classify(e, diffs_a, diffs_b):
@@ -587,8 +614,16 @@ def correspond(ctx):
       ctx.notes.append('monitor: formula shape %r was not exercised in this run' % sh)
   ctx.extra['monitor_cell_evaluations'] = evals
   ctx.log('monitor: %d histories, %d cell evaluations, %d model cases' % (n, evals, len(ctx._c05_cases)))
+  gen_defs = ('Require Import GristGen.Deps_gen.\n'
+              'Definition run_icase_gen (c : icase) : bool :=\n'
+              '  let g := mkG (c_edges c) (mkR (mk_inv (c_inv c)) (mk_lkrows (c_lkrows c)) (mk_lkkeys (c_lkkeys c))) (mk_map (c_map c)) [] in\n'
+              '  match gen_invalidate_deps 5000 g (c_node c) (match c_rows c with None => AllRows | Some l => Rows l end) (c_incl c) with\n'
+              '  | Some g\' => forallb (entry_matches (g_map g\')) (c_expected c) | None => false end.\n')
+  # translator validation: the GENERATED invalidate_deps and the model, both against the running Graph.invalidate_deps
   bad = ctx.run_cases('inval', ['Grist.Model.Deps', 'Grist.Model.DepsSpec', 'Grist.Model.DepsExec', 'Grist.Lib.DepsCases'],
-                      'run_icase', ctx._c05_cases, shard=500, timeout=900)
+                      '(fun c => run_icase c && run_icase_gen c)', ctx._c05_cases, shard=500, timeout=900, extra_defs=gen_defs)
+  ctx.extra['translator_validation'] = {'gen_invalidate_deps vs running Graph.invalidate_deps (exported graphs)': len(ctx._c05_cases),
+                                        'disagreements': len(bad)}
   for i in bad[:5]:
     ctx.broken('correspondence:DepsExec.invalidate_deps differs from depend.Graph.invalidate_deps',
                ctx._c05_cases[i][:3000])
